@@ -201,3 +201,34 @@ def logic_trees(arith):
         out += [sym.LogicalNot(t), sym.LogicalAnd((t, p)), sym.LogicalOr((q, t)), sym.LogicalAnd((p, t, q)),
                 sym.LogicalOr((sym.LogicalNot(t), p)), sym.Comparison(t, '==', p) if False else sym.LogicalNot(sym.LogicalNot(t))]
     return out
+
+
+def nary_sign_trees(leaves):
+    """flat n-ary products and sums (arity 3-5) whose members carry every combination of minus signs: bare -1
+    factors, negated variables, negated literals, negative literals"""
+    import itertools as _it
+    a, b, c = leaves[:3]
+    L = sym.IntLiteral
+    out = []
+    members = [a, b, c, L(2), L(3)]
+    for arity in (3, 4, 5):
+        ms = members[:arity]
+        for signs in _it.product((0, 1), repeat=arity):
+            if sum(signs) < 2:
+                continue
+            neg_members = tuple(neg(m) if s else m for m, s in zip(ms, signs))
+            out.append(sym.Product(neg_members))
+            out.append(sym.Sum(neg_members))
+            # bare -1 factors interleaved
+            mixed = []
+            for m, s in zip(ms, signs):
+                if s:
+                    mixed.append(-1)
+                mixed.append(m)
+            out.append(sym.Product(tuple(mixed)))
+            lits = tuple(L(-m.value) if (s and isinstance(m, sym.IntLiteral)) else (neg(m) if s else m) for m, s in zip(ms, signs))
+            out.append(sym.Product(lits))
+    out.append(sym.Product((L(-1), a, L(-1), b, L(-1))))
+    out.append(sym.Product((neg(L(1)), neg(L(2)), neg(L(3)))))
+    out.append(sym.Sum((a, sym.Product((neg(L(2)), neg(L(1)), neg(L(1)))))))
+    return out
